@@ -1,4 +1,6 @@
 """C10 - declared optimum of every benchmark instance is its global minimum."""
+import os
+
 from vlib import core, bench, bench_checks as B, harness as H
 
 PT = bench.PT
@@ -10,9 +12,10 @@ def run(chk):
     core.proof_stage(chk, 'Properties/C10.v', extra_targets=['Problems/Families.vo', 'Problems/Simple.vo'])
     chk.trusted += ['coq-interval (interval tactic: kernel-checked interval arithmetic over primitive floats) and Coquelicot (auto_derive)',
                     'decimal literals of the tables are used as written (they differ from the binary64 values the code uses by < 1e-16 relative)']
-    chk.assumptions += ['per-instance statements are proved for the instances listed in coverage.instances_proved (quick: seeded sample; thorough: all Hill, Shekel, Shekel4)',
-                        'GKLS: structure theorem + parameter check are under C14; Grishagin and StronginC3: numeric search only in this version (stated in DESIGN.md)']
-    ks = {fam: (list(range(1000)) if thorough else sorted(rng.sample(range(1000), 8) + [0, 999])) for fam in ('Hill', 'Shekel')}
+    chk.assumptions += ['per-instance statements are proved for the instances listed in coverage.instances_proved (quick: seeded sample of 10 + 10 rows; thorough: 100 + 100 rows chosen by --seed; VERIF_ALL_ROWS=1: all 1000 + 1000; Shekel4 and StronginC3 always)',
+                        'GKLS: structure theorem + parameter check are under C14; StronginC3: proved over its feasible set by a Lagrangian-relaxation certificate (multiplier and feasible witness found numerically, checked by interval); Grishagin: numeric search only (stated in DESIGN.md)']
+    allrows = bool(os.environ.get('VERIF_ALL_ROWS'))      # soak: every one of the 2 x 1000 rows (hours); thorough: a seeded sample of 100 + 100
+    ks = {fam: (list(range(1000)) if allrows else sorted(set(rng.sample(range(1000), 98 if thorough else 8) + [0, 999]))) for fam in ('Hill', 'Shekel')}
     texts, insts, infos = [], [], {}
     try:
         for fam in ('Hill', 'Shekel'):
@@ -26,6 +29,9 @@ def run(chk):
             tx, names, info = bench.instance_shekel4(core.REPO, k)
             texts.append((('Shekel4', k), tx, names)); infos[('Shekel4', k)] = info
             insts.append(('Shekel4', {'k': k}, info['expr'], info['box'][0], info['box'][1]))
+        tx, names, info = bench.instance_strongin(core.REPO)
+        texts.append((('StronginC3', 0), tx, names)); infos[('StronginC3', 0)] = info
+        chk.cov['strongin_certificate'] = {k: info[k] for k in ('constraint_used', 'multiplier', 'witness', 'witness_value_bound', 'numeric_margins')}
         tx, names = bench.simple_ties(core.REPO)
         texts.append((('Rastrigin/XSquared ties', 0), tx, names))
         for fam in ('Rastrigin', 'XSquared'):
@@ -50,11 +56,57 @@ def run(chk):
         chk.evaluations += 1
         if found > 3:
             break
+    found += strongin_feasible_search(chk)
     found += other_families(chk, rng, thorough)
     if not found:
         for key, v in res.items():
             if not v[0]:
                 chk.violation('instance-theorem', 'instance theorem %s of %s no longer checks' % (v[1], key), {'kind': 'lemma', 'instance': list(key), 'lemma': v[1], 'coq': v[2]}, found_input=False)
+
+
+def strongin_feasible_search(chk):
+    """dense search of the FEASIBLE set of StronginC3 on the real Calculate (objective and the three constraints)"""
+    import numpy as np
+    from iOpt.trial import Point, FunctionValue, FunctionType
+    pb = B.problem('StronginC3')
+    lo = [float(v) for v in pb.lowerBoundOfFloatVariables]; hi = [float(v) for v in pb.upperBoundOfFloatVariables]
+    ko = pb.knownOptimum[0]
+    p = [float(v) for v in ko.point.floatVariables]; v = float(ko.functionValues[0].value)
+
+    def val(y, kind, fid=0):
+        fv = FunctionValue(kind, fid)
+        return float(pb.Calculate(Point(np.array(y, dtype=np.double), []), fv).value)
+    found = 0
+    fp = val(p, FunctionType.OBJECTIV)
+    if abs(fp - v) > 1e-4:
+        found += chk.violation('optimum', 'StronginC3: objective at the declared optimum point is %r, declared value %r' % (fp, v), {'kind': 'instance', 'family': 'StronginC3'})
+    best = (np.inf, None)
+
+    def scan(x0s, x1s):
+        nonlocal best
+        for a in x0s:
+            for b in x1s:
+                if all(val([a, b], FunctionType.CONSTRAINT, j) <= 0 for j in range(3)):
+                    z = val([a, b], FunctionType.OBJECTIV)
+                    if z < best[0]:
+                        best = (z, [float(a), float(b)])
+    scan(np.linspace(lo[0], hi[0], 161), np.linspace(lo[1], hi[1], 161))
+    for _ in range(3):      # refine around the incumbent
+        if best[1] is None:
+            break
+        c, h = best[1], (hi[0] - lo[0]) / 160 / (4 ** _)
+        scan(np.clip(np.linspace(c[0] - h, c[0] + h, 21), lo[0], hi[0]), np.clip(np.linspace(c[1] - h, c[1] + h, 21), lo[1], hi[1]))
+    chk.evaluations += 1
+    chk.cov['strongin_feasible_search'] = {'best_feasible_value': best[0], 'at': best[1], 'declared': [p, v]}
+    if best[1] is None:
+        return found
+    if best[0] < v - 2e-3 * max(1.0, abs(v)):
+        found += chk.violation('optimum', 'StronginC3: feasible point %r has value %r, lower than the declared optimum %r by more than 2e-3*max(1,|f*|)' % (best[1], best[0], v),
+                               {'kind': 'instance', 'family': 'StronginC3', 'witness': {'point': best[1]}})
+    elif max(abs(a - b) / (h_ - l_) for a, b, l_, h_ in zip(best[1], p, lo, hi)) > 0.005:
+        found += chk.violation('optimum', 'StronginC3: the best feasible point found %r (value %r) lies farther than 0.5%% of the box side from the declared optimum %r' % (best[1], best[0], p),
+                               {'kind': 'instance', 'family': 'StronginC3', 'witness': {'point': best[1]}})
+    return found
 
 
 def other_families(chk, rng, thorough):
